@@ -552,6 +552,14 @@ impl Runtime {
             (rand::random::<u32>() & 0x_00FF_FFFF) + 1,
             (rand::random::<u32>() & 0x_00FF_FFFF) + 1,
         );
+        #[cfg(feature = "verif")]
+        {
+            self.rand = (
+                (crate::verif::entropy_u32() & 0x_00FF_FFFF) + 1,
+                (crate::verif::entropy_u32() & 0x_00FF_FFFF) + 1,
+                (crate::verif::entropy_u32() & 0x_00FF_FFFF) + 1,
+            );
+        }
         self.program.restore_data(0);
         self.stack.clear();
         self.vars.clear();
